@@ -502,6 +502,14 @@ class Exec(Engine):
                     raise Undecided('generator iterable forks', node)
                 itv, st = rs[0]
             items = self.concrete_items(itv, st)
+            if items is None and not self.pure:
+                # code: all/any over a symbolic sequence with a side-effect free element expression (models / spec functions
+                # only): the quantified reading, evaluated as a specification would be
+                self.pure += 1
+                try:
+                    return self.quantified(kind, gen, st, node)
+                finally:
+                    self.pure -= 1
             if items is None:
                 raise Undecided('all/any over symbolic iterable needs pure mode: %s' % ast.unparse(it), node)
             ts = []
